@@ -203,6 +203,28 @@ static void guard_helpers() {
 			count("qs_lock_guard_sequences");
 		}
 	});
+	// the guards over the library's own lock types, also over a ticket lock that has been in use for a long time (its counters about to
+	// wrap at 2^31 / 2^32; the QS domain keeps its mutex in a frg::lock_guard): 40 guarded sections each; a guard that does not
+	// release hangs the next section (watchdog), one that stops at an assertion is reported by guarded()
+	guarded("C12", [] {
+		for(uint32_t first : {0u, 0x7FFFFFF0u, 0xFFFFFFF0u}) {
+			frg::ticket_spinlock t1(first), t2(first), t3(first);
+			frg::simple_spinlock s1, s2, s3;
+			int plain = 0;
+			for(int i = 0; i < 40; i++) {
+				{ frg::lock_guard<frg::ticket_spinlock> g(t1); plain++; if(i % 3 == 0) { g.unlock(); g.lock(); } }
+				{ frg::unique_lock<frg::ticket_spinlock> g(t2); plain++; if(i % 3 == 1) { g.unlock(); g.lock(); } if(i % 5 == 0) { auto h = std::move(g); } }
+				{ auto g = frg::guard(&t3); plain++; }
+				{ frg::lock_guard<frg::simple_spinlock> g(s1); plain++; if(i % 3 == 0) { g.unlock(); g.lock(); } if(!s1.is_locked()) violation("C12:guard:real-locks:not-held", "qs lock_guard over a simple_spinlock does not hold it"); }
+				{ frg::unique_lock<frg::simple_spinlock> g(s2); plain++; }
+				{ auto g = frg::guard(&s3); plain++; }
+				if(s1.is_locked() || s2.is_locked() || s3.is_locked()) { violation("C12:guard:real-locks:not-released", "a guard over a simple_spinlock left it locked"); break; }
+			}
+			// every lock is free again: a direct lock()/unlock() pair goes through
+			t1.lock(); t1.unlock(); t2.lock(); t2.unlock(); t3.lock(); t3.unlock();
+			count("guarded_sections_over_real_spinlocks", (uint64_t)plain);
+		}
+	});
 	note_distinct(hash_str("guards:helpers"));
 }
 
